@@ -36,7 +36,21 @@ def showObj : ChildObj → String
 def showChild (c : Child) : String :=
   s!"{c.index}:{showObj c.obj}:{if c.isAsync then "async" else "sync"}:{if c.awaitTag then "await " else ""}{showMethod c.method}"
 
+def parseEv (j : Json) : Except String Ev := do
+  let a ← jArr j
+  match (← jStr a[0]!) with
+  | "pop_all" => pure .popAll
+  | "pop_one" => pure .popOne
+  | _ => pure (.reg (← parseOp j))
+
+def showKids (es : List Entry) : String := " ".intercalate ((elaborate es).map showChild)
+
 def handle (j : Json) : Except String String := do
+  if let .ok evs := jField j "evs" then
+    let evs ← (← jArr evs).toList.mapM parseEv
+    let s := runEvs evs
+    let nomoved := (jField j "nomoved" >>= fun b => b.getBool?).toOption.getD false
+    return s!"{showKids s.cur} | {if nomoved then "-" else showKids s.moved}"
   let ops ← (← jArr (← jField j "ops")).toList.mapM parseOp
   pure (" ".intercalate ((elaborate (ops.map register)).map showChild))
 
